@@ -347,3 +347,101 @@ fn fri_end_to_end_bounded() {
     layer_query_contract::<f64::BaseElement, Blake3_256<f64::BaseElement>>("f64", &mut rng, &mut cases);
     println!("NB-RESULT name=fri_end_to_end_bounded cases={cases}");
 }
+
+// ------------------------------------------------------------------------------------------------
+// The folding identity of `apply_drp` itself (C15): for a polynomial f given by its coefficients, its evaluations
+// over the coset offset * <g> (|<g>| = domain size), grouped in rows of N, fold - for the challenge alpha - to the
+// evaluations over offset^N * <g^N> of the polynomial whose i-th coefficient is sum_k alpha^k * f[N*i + k].
+// Reference: coefficients folded directly, evaluated by Horner at explicitly computed points.
+// Bound: N in {2, 4, 8, 16}, domains N*2 .. 256, offsets {1, generator, 5, seeded}, base fields and extensions.
+
+fn seeded_elem<B: StarkField, E: FieldElement<BaseField = B>>(rng: &mut Rng) -> E {
+    let mut bytes = vec![0u8; E::ELEMENT_BYTES];
+    for chunk in bytes.chunks_mut(B::ELEMENT_BYTES) {
+        chunk[..4].copy_from_slice(&(((rng.next() >> 33) as u32) | 1).to_le_bytes());
+    }
+    E::read_from_bytes(&bytes).unwrap()
+}
+
+fn horner<E: FieldElement>(p: &[E], x: E) -> E {
+    let mut acc = E::ZERO;
+    for c in p.iter().rev() {
+        acc = acc * x + *c;
+    }
+    acc
+}
+
+fn folding_identity<B, E, const N: usize>(tag: &str, rng: &mut Rng, cases: &mut u64)
+where
+    B: StarkField,
+    E: FieldElement<BaseField = B>,
+{
+    let offsets = [B::ONE, B::GENERATOR, B::from(5u32), B::from(((rng.next() >> 34) as u32) | 3)];
+    let mut domain_size = 2 * N;
+    while domain_size <= 256 {
+        for &offset in offsets.iter() {
+            for num_coeffs in [domain_size / 2, domain_size / 4 + 1, 1] {
+                let f: Vec<E> = (0..num_coeffs).map(|_| seeded_elem::<B, E>(rng)).collect();
+                let alpha: E = seeded_elem::<B, E>(rng);
+                let g = B::get_root_of_unity(domain_size.trailing_zeros());
+                // evaluations over offset * g^i, grouped into rows [i, i + n/N, i + 2n/N, ...]
+                let mut evals = Vec::with_capacity(domain_size);
+                let mut x = offset;
+                for _ in 0..domain_size {
+                    evals.push(horner(&f, E::from(x)));
+                    x *= g;
+                }
+                let rows = domain_size / N;
+                let transposed: Vec<[E; N]> = (0..rows).map(|i| core::array::from_fn(|k| evals[i + k * rows])).collect();
+                let folded = winter_fri::folding::apply_drp(&transposed, offset, alpha);
+                // reference: fold the coefficients, evaluate over offset^N * (g^N)^i
+                let mut fc = vec![E::ZERO; (num_coeffs + N - 1) / N];
+                for (j, c) in f.iter().enumerate() {
+                    let mut a = E::ONE;
+                    for _ in 0..(j % N) {
+                        a *= alpha;
+                    }
+                    fc[j / N] += a * *c;
+                }
+                let mut on = B::ONE;
+                let mut gn = B::ONE;
+                for _ in 0..N {
+                    on *= offset;
+                    gn *= g;
+                }
+                if folded.len() != rows {
+                    fail(format!("{tag}: apply_drp returned {} values for {rows} rows (N = {N})", folded.len()));
+                }
+                let mut y = on;
+                for (i, v) in folded.iter().enumerate() {
+                    *cases += 1;
+                    if *v != horner(&fc, E::from(y)) {
+                        fail(format!("{tag}: folding identity violated: N = {N}, domain {domain_size}, offset {offset}, {num_coeffs} coefficients, folded position {i}"));
+                    }
+                    y *= gn;
+                }
+            }
+        }
+        domain_size *= 4;
+    }
+}
+
+#[test]
+fn folding_identity_bounded() {
+    let mut rng = Rng(0x8EBC6AF09C88C6E3 ^ seed().wrapping_mul(0x589965CC75374CC3) | 1);
+    let mut cases = 0u64;
+    macro_rules! all_n {
+        ($b:ty, $e:ty, $tag:expr) => {
+            folding_identity::<$b, $e, 2>($tag, &mut rng, &mut cases);
+            folding_identity::<$b, $e, 4>($tag, &mut rng, &mut cases);
+            folding_identity::<$b, $e, 8>($tag, &mut rng, &mut cases);
+            folding_identity::<$b, $e, 16>($tag, &mut rng, &mut cases);
+        };
+    }
+    all_n!(f128::BaseElement, f128::BaseElement, "f128");
+    all_n!(f64::BaseElement, f64::BaseElement, "f64");
+    all_n!(f64::BaseElement, math::fields::QuadExtension<f64::BaseElement>, "f64 quadratic");
+    all_n!(f64::BaseElement, math::fields::CubeExtension<f64::BaseElement>, "f64 cubic");
+    all_n!(f128::BaseElement, math::fields::QuadExtension<f128::BaseElement>, "f128 quadratic");
+    println!("NB-RESULT name=folding_identity_bounded cases={cases}");
+}
